@@ -407,6 +407,87 @@ func init() {
 					}
 					conversionCase(c, i)
 				}})
+			// many names per type and many arguments per call
+			secs = append(secs, core.Section{Name: "many-names-and-arguments", Exhaustive: true, N: 5,
+				Run: func(c *core.Ctx, i int) {
+					textwire.VerifReset()
+					c.State["conv"] = nil
+					typ := []string{"string", "array", "int", "float", "bool"}[i]
+					recvSrc := []string{`"r"`, "[1]", "7", "2.5", "true"}[i]
+					const nNames = 400
+					var got []any
+					reg := func(name string, id int) error {
+						switch i {
+						case 0:
+							return textwire.RegisterStrFunc(name, func(s string, a ...any) string { got = a; return fmt.Sprint("id", id) })
+						case 1:
+							return textwire.RegisterArrFunc(name, func(x []any, a ...any) []any { got = a; return []any{id} })
+						case 2:
+							return textwire.RegisterIntFunc(name, func(x int, a ...any) int { got = a; return id })
+						case 3:
+							return textwire.RegisterFloatFunc(name, func(x float64, a ...any) float64 { got = a; return float64(id) + 0.5 })
+						default:
+							return textwire.RegisterBoolFunc(name, func(x bool, a ...any) bool { got = a; return id%2 == 0 })
+						}
+					}
+					want := func(id int) string {
+						return []string{fmt.Sprint("id", id), fmt.Sprint(id), fmt.Sprint(id), fmt.Sprint(float64(id) + 0.5), map[bool]string{true: "1", false: "0"}[id%2 == 0]}[i]
+					}
+					c.Input(map[string]any{"type": typ, "names": nNames})
+					c.Nontrivial("many-names:" + typ)
+					for k := 0; k < nNames; k++ {
+						if err := reg(fmt.Sprintf("fn%d", k), k); err != nil {
+							c.Violation("registry:first-registration-refused", fmt.Sprintf("registering the %d-th %s function name failed: %v", k+1, typ, err), nil)
+							return
+						}
+					}
+					for k := 0; k < nNames; k++ {
+						if err := reg(fmt.Sprintf("fn%d", k), 100000+k); err == nil {
+							c.Violation("registry:second-registration-accepted", fmt.Sprintf("registering the %s function name fn%d a second time succeeded (%d names are registered)", typ, k, nNames), nil)
+							return
+						}
+					}
+					for _, k := range []int{0, 1, 15, 16, 17, 63, 64, 65, 127, 128, 255, 256, 399} {
+						src := fmt.Sprintf("{{ %s.fn%d() }}", recvSrc, k)
+						if g := evalString(c, src, nil); !g.Panicked && (g.Err != nil || g.Out != want(k)) {
+							c.Violation("registry:wrong-function-bound", fmt.Sprintf("%s gave %s, want %q (the function registered first under that name)", src, g.Describe(), want(k)), map[string]any{"source": src})
+							return
+						}
+					}
+					// 1..64 arguments arrive in order
+					for _, n := range []int{1, 2, 3, 7, 8, 9, 15, 16, 17, 31, 32, 33, 64} {
+						var parts []string
+						for a := 0; a < n; a++ {
+							parts = append(parts, []string{fmt.Sprint(a), fmt.Sprintf("\"s%d\"", a), fmt.Sprintf("%d.5", a), "nil", fmt.Sprintf("[%d]", a)}[a%5])
+						}
+						src := fmt.Sprintf("{{ %s.fn3(%s) }}", recvSrc, strings.Join(parts, ", "))
+						got = nil
+						g := evalString(c, src, nil)
+						if g.Panicked {
+							return
+						}
+						ok := g.Err == nil && len(got) == n
+						for a := 0; ok && a < n; a++ {
+							switch a % 5 {
+							case 0:
+								ok = sameNative(got[a], int64(a))
+							case 1:
+								ok = sameNative(got[a], fmt.Sprintf("s%d", a))
+							case 2:
+								ok = sameNative(got[a], float64(a)+0.5)
+							case 3:
+								ok = got[a] == nil
+							default:
+								ok = sameNative(got[a], []any{int64(a)})
+							}
+						}
+						if !ok {
+							c.Violation("conversion:many-arguments", fmt.Sprintf("a call with %d arguments gave %s and the function received %d arguments: %s", n, g.Describe(), len(got), clipS(fmt.Sprintf("%#v", got), 300)), map[string]any{"source": src})
+							return
+						}
+					}
+					textwire.VerifReset()
+				}})
 			secs = append(secs, core.Section{Name: "conversion-special", Exhaustive: true, N: len(mutTemplates) + 6 + len(argFaultCases) + len(zeroLiterals) + 5 + 1 + 5,
 				Run: func(c *core.Ctx, i int) {
 					registerConversionFuncs()
